@@ -18,7 +18,7 @@ for item in sys.argv[2:]:
     sid = f"{prop}-{var}"
     dst = os.path.join("/verif/seeded", sid)
     rec = {"id": sid, "property": prop, "source": "fresh sub-agent given only the property record and a scratch worktree"}
-    sh("git checkout -- webauthn", wt)
+    sh("git checkout -- webauthn && git clean -fdq -- webauthn", wt)
     rc, out = sh(f"/venv/bin/python out/{var}/demo.py", wt)
     rec["demo_without_patch"] = {"exit": rc, "tail": out.strip().splitlines()[-1][:200] if out.strip() else ""}
     rc, out = sh(f"git apply out/{var}/patch.diff", wt)
@@ -27,7 +27,7 @@ for item in sys.argv[2:]:
     rec["tests_with_patch"] = out.strip()
     rc, out = sh(f"/venv/bin/python out/{var}/demo.py", wt)
     rec["demo_with_patch"] = {"exit": rc, "tail": out.strip().splitlines()[-1][:300] if out.strip() else ""}
-    sh("git checkout -- webauthn", wt)
+    sh("git checkout -- webauthn && git clean -fdq -- webauthn", wt)
     ok = rec["patch_applies"] and "179 passed" in rec["tests_with_patch"] and rec["demo_without_patch"]["exit"] == 0 and rec["demo_with_patch"]["exit"] == 1
     rec["confirmed"] = ok
     if not ok:
